@@ -412,6 +412,16 @@ def op_rename_values(w, vs, names):
 
 
 @op
+def op_merge_shapes(w, v, dims):
+    V = w.V(v)
+
+    def thunk():
+        V.merge_shapes(ir.Shape(list(dims)))
+
+    return thunk
+
+
+@op
 def op_node_rename(w, n, name):
     Nn = w.N(n)
 
